@@ -425,7 +425,8 @@ static int bad_CSRUnwrap(fc_ctx* c, int j, err_t* exp)
 	{
 		/* one altered octet anywhere: the request is malformed, carries an invalid key
 		   or its signature no longer verifies - never ERR_OK */
-		csr[fc_below(c, CSR_LEN)] ^= (octet)(1u << fc_below(c, 8));
+		/* position = (j - 2) mod 40: two different variants applied together never hit the same octet */
+		csr[(size_t)(j - 2) + 40 * fc_below(c, (CSR_LEN - (uint32_t)(j - 2) + 39) / 40)] ^= (octet)(1u << fc_below(c, 8));
 		exp[0] = FC_ANYERR;
 		return 1;
 	}
